@@ -186,10 +186,15 @@ impl<D: DictionaryAccess> DictBuilder<D> {
     /// Read the csv lexicon from either a file or an in-memory buffer
     pub fn read_lexicon<'a, T: AsDataSource<'a> + 'a>(&mut self, data: T) -> SudachiResult<usize> {
         let report = ReportBuilder::new(data.name()).read();
+        let unresolved = self.lexicon.num_unresolved();
         let result = match data.convert() {
             DataSource::File(p) => self.lexicon.read_file(p),
             DataSource::Data(d) => self.lexicon.read_bytes(d),
         };
+        if self.lexicon.num_unresolved() > unresolved {
+            // new inline references were read, resolve() must be called (again)
+            self.resolved = false;
+        }
         self.reporter.collect_r(result, report)
     }
 
